@@ -57,6 +57,17 @@ func c02(r *core.Run) {
 		Kinds: []string{"sub", "sub", "sub", "unsub", "unsub", "clear", "clearall", "count", "pub", "pub", "pub", "pub"},
 		Cfgs:  []busdrv.Cfg{plainCfg}}
 	stress(r, "c02-stress", g, r.Pick(150, 3000), []int{1, 2, 4, 16}, 202, classifyBus, "no-deadlock")
+	// operations of one goroutine nested inside a handler callback of another (deterministic interleavings)
+	rnd := rand.New(rand.NewPCG(uint64(r.Seed), 204))
+	var nested []busdrv.Script
+	for i := 0; i < r.Pick(600, 10000); i++ {
+		s := g.Nested(rnd)
+		nested = append(nested, s)
+		r.Case(scriptKey(s))
+	}
+	r.Sample(nested[0])
+	busdrv.ExecAndValidate(r, nested, busdrv.ExecOpts{Name: "c02-nested", Self: RaceSelf(), Seed: uint64(r.Seed), Env: []string{"GORACE=halt_on_error=1"},
+		HangIsViolation: true, HangClause: "no-deadlock", CrashClause: "data-race-or-crash", Classify: classifyBus})
 	churn(r, r.Pick(1500, 40000))
 }
 
